@@ -154,7 +154,11 @@ def ArrEntry.boolVal : ArrEntry → Option Bool
   | _ => none
 
 /-- `Display for IterableKind::Integers / Booleans` (`{:?}` of the vector) -/
-def arrayText (items : List String) : String := "[" ++ ", ".intercalate items ++ "]"
+def joinCommaSpace : List (List Char) → List Char
+  | [] => []
+  | [x] => x
+  | x :: y :: xs => x ++ ',' :: ' ' :: joinCommaSpace (y :: xs)
+def arrayText (items : List String) : String := String.ofList ('[' :: joinCommaSpace (items.map String.toList) ++ [']'])
 
 /-- `Rule::array` leaf, `flatten_primitive_array_values` and the display of the result.  An integer entry that
 overflows `i64` is an error of the AST builder: the leaf is answered as that integer, which `validInts` refuses. -/
